@@ -9,21 +9,25 @@ SPEC = {
              "roots: default-constructed header, parsed header with an empty present word, parsed header with the fields "
              "{rate, channel, dbm_noise, db_signal, tx_flags, xchannel}, each with a 10-byte 802.11 ACK frame as inner PDU; "
              "alphabet: the 14 field setters of the property (tsft, flags, rate, channel, dbm_signal, dbm_noise, signal_quality, "
-             "antenna, db_signal, rx_flags, tx_flags, data_retries, xchannel, mcs) with value v1; thorough runs three BFS per root, "
-             "each adding a second value v2 for one third of the fields ({tsft, flags (FCS bit on/off), channel, signal_quality, xchannel}, "
-             "{rate, dbm_signal, rx_flags, tx_flags, mcs}, {dbm_noise, antenna, db_signal, data_retries}); state key = options_payload_ bytes x model. "
+             "antenna, db_signal, rx_flags, tx_flags, data_retries, xchannel, mcs) with value v1; flags, the one field whose VALUE steers "
+             "serializer and parser, has one value per steering-bit combination in BOTH tiers: 0x12 (FCS: serialize() appends a 4-byte FCS trailer, "
+             "the parser strips it), 0x0a (plain), 0x42 (FAILED_FCS without FCS: legal, must round-trip), thorough adds 0xc5; FCS|FAILED_FCS is kept "
+             "out (RadioTap(buffer) rejects it by design); thorough runs four BFS per root, each adding a second value v2 for a quarter of the other "
+             "fields ({tsft, channel, signal_quality, xchannel}, {rate, dbm_signal, rx_flags}, {tx_flags, mcs, dbm_noise}, {antenna, db_signal, "
+             "data_retries}); state key = options_payload_ bytes x model. "
              "On EVERY transition: options_payload_ == canonical layout written by the harness' own writer (radiotap.org size/alignment "
              "table, offsets from the start of the RadioTap header; same size, present word and field bytes at the same offsets, gap content "
              "not judged), present() == written fields, each of the 14 getters == last write or throws field_not_present, serialize(): "
-             "it_len == header bytes == header_size(), serialized header == options_payload_, inner frame behind it; RadioTap(serialize()) "
+             "it_len == header bytes == header_size(), serialized header == options_payload_, inner frame behind it, total size == header + frame + "
+             "(4 iff the model's flags value has the FCS bit) == trailer_size() model; RadioTap(serialize()) must be accepted and "
              "returns the same payload, present word, 14 getter results and a Dot11Ack with the same bytes; no ASan/UBSan report; every new state's history is re-played on a fresh object. "
              "distinct_nontrivial = product states whose layout contains at least one alignment gap."),
     "claim": ("Per root the reachable product state space (all subsets of the 14 fields above the root's set x the value choices) is "
               "finite and explored to fixpoint, and every (state, setter) transition is executed and judged; because a state's future "
               "depends only on options_payload_ (the key), this covers setter sequences of any length, order and repetition over the alphabet."),
     "note": ("Trusted: sanitizers, the harness' canonical writer and its radiotap.org field table. Bounds: three roots, one or two values "
-             "per field, first radiotap namespace only (no extended present words / vendor namespaces in roots), flags values without FAILED_FCS "
-             "(RadioTap(buffer) rejects those frames by design)."),
+             "per field, first radiotap namespace only (no extended present words / vendor namespaces in roots), flags values without the FCS|FAILED_FCS combination "
+             "(RadioTap(buffer) rejects those frames by design); the FCS value itself is not judged."),
     "assumptions": ["field sizes/alignments as published on radiotap.org (TSFT 8/8, CHANNEL 4/2, LOCK_QUALITY 2/2, RX/TX_FLAGS 2/2, XCHANNEL 8/4, MCS 3/1, rest 1/1)",
                     "parsed roots are well-formed single-namespace headers followed by a 10-byte ACK frame",
                     "sanitizers: ASan+UBSan (alignment check off)"],
